@@ -7,7 +7,7 @@ file boundaries). Every chunk match consists of whole lines starting at its repo
 its ranges, reports for each range a line and a character column that agree with the byte offset, and never overlaps
 another chunk of the same file; a file-name match reports the file name as its text.
 -/
-import ZoektModel.C03.Lemmas
+import ZoektModel.C03.Lemmas4
 namespace ZoektModel.C03
 open ZoektModel
 
@@ -25,6 +25,55 @@ theorem lineStart_spec (data : Bytes) (n : Nat) :
 /-- line numbers below 1 (which `fillContentMatches` produces as `num - numContextLines`) are clamped to the file start -/
 theorem lineStart_clamped (data : Bytes) (n : Int) (h : n ≤ 1) : lineStart (Newlines.ofData data) n = 0 :=
   lineStart_neg _ n h
+
+/-- **`filename_match_text`**: when no content candidate is gathered, the one line match reports the file name as its
+    text and every fragment lies inside the name -/
+theorem filename_match_text (data name : Bytes) (ctx : Nat) (ms : List Cand) (g : Gathered data name ms)
+    (hnc : ms.filter (fun c => !c.fileName) = []) :
+    fillMatches data name ctx ms = some [fileNameLine name ms] ∧ fileNameLineOk name (fileNameLine name ms) = true := by
+  constructor
+  · simp [fillMatches, hnc]
+  · simp only [fileNameLineOk, fileNameLine, beq_self_eq_true, Bool.true_and, List.all_eq_true, List.mem_map,
+      forall_exists_index, and_imp, forall_apply_eq_imp_iff₂, Bool.and_eq_true, decide_eq_true_eq, beq_iff_eq, and_true]
+    intro c hc
+    have hfn : c.fileName = true := by
+      cases h : c.fileName with
+      | true => rfl
+      | false =>
+        have : c ∈ ms.filter (fun c => !c.fileName) := by simp [List.mem_filter, hc, h]
+        rw [hnc] at this; simp at this
+    have := g.inBounds c hc
+    simpa [hfn] using this
+
+/-- **`line_fields_agree`** (line mode, all documents, all gathered candidate lists, all context sizes): the search
+    reports line matches without hitting `fillContentMatches`' panic; every content line match carries the line number,
+    start, end and text of exactly one line of the file (1 + newlines before its start; from just after the previous
+    newline to just after its own newline or to the end of the file), its fragments lie inside that line with
+    `LineOffset` relative to the line start, and `Before` / `After` are the bytes of the `ctx` lines before / after it,
+    clamped at the file boundaries; the fragments, in order, are exactly the newline-free pieces of the candidates. -/
+theorem line_fields_agree (data name : Bytes) (ctx : Nat) (ms : List Cand) (g : Gathered data name ms)
+    (hc : ms.filter (fun c => !c.fileName) ≠ []) :
+    ∃ lms, fillMatches data name ctx ms = some lms ∧
+      (∀ lm ∈ lms, lm.fileName = false ∧ lineCoreOk data lm = true ∧ lineContextOk data ctx lm = true) ∧
+      lms.flatMap (fun lm => lm.frags.map (fun f => (f.off, f.len))) =
+        (breakMatchesOnNewlines data (ms.filter (fun c => !c.fileName))).map (fun c => (c.off, c.sz)) := by
+  have hlen : (ms.filter (fun c => !c.fileName)).length > 0 := List.length_pos_iff.mpr hc
+  obtain ⟨hd, hb⟩ := g.content
+  have pre := linePre_break data _ hd (fun c h => (hb c h).2)
+  obtain ⟨lms, h1, h2, h3⟩ := fill_lines_ok data ctx _ _ (Nat.le_refl _) pre
+  refine ⟨lms, ?_, ?_, h3⟩
+  · simp only [fillMatches, hlen, if_true]; exact h1
+  · intro lm hlm
+    have := h2 lm hlm
+    exact ⟨this.2.2, this.1, this.2.1⟩
+
+/-! non-vacuity: "ab\ncd\n" with a file-name candidate, a candidate on line 1 and one spanning the newline -/
+def exData : Bytes := [97, 98, 10, 99, 100, 10]
+def exName : Bytes := [102, 46, 103, 111]
+def exCands : List Cand := [⟨true, 0, 1⟩, ⟨false, 0, 1⟩, ⟨false, 1, 3⟩]
+theorem exGathered : Gathered exData exName exCands :=
+  ⟨by decide, by decide, by decide⟩
+example := line_fields_agree exData exName 1 exCands exGathered (by decide)
 
 example : atOffset (Newlines.ofData [97, 10, 10, 98]) 2 = 2 ∧ lineStart (Newlines.ofData [97, 10, 10, 98]) 3 = 3 := by
   rw [atOffset_spec]; decide
